@@ -43,9 +43,11 @@ def r1(ctx, retsets):
     ln = vf.expr(fn, p.args[2])
     dst_ok = dst[0] == "ptradd" and dst[1] == ("arg", 1) and dst[2] == ("c", HDR)
     len_ok = ln[0] == "bin" and ln[1] == "sub" and is_hlen(ln[2]) and ln[3] == ("c", HDR)
-    guards = [(vf.expr(fn, g), t) for g, t, br in es.guards_of(fn, p)]
-    lo = any(g[0] == "icmp" and g[1] == "ult" and not t and is_hlen(g[2]) and g[3] == ("c", HDR) for g, t in guards)
-    hi = any(g[0] == "icmp" and g[1] == "ugt" and not t and is_hlen(g[2]) and g[3][0] == "c" and g[3][1] <= MAXPDU for g, t in guards)
+    G = es.Guards(fn, p)
+    lo = any(b_[0] == "c" and b_[1] >= HDR for (r_, b_, a_) in [(r, a, b) for (r, a, b) in G.rel if r == "le" and is_hlen(b)]) or \
+        any(a_[0] == "c" and a_[1] >= HDR - 1 for (r, a_, b_) in G.rel if r == "lt" and is_hlen(b_))
+    hi = any(b_[0] == "c" and b_[1] <= MAXPDU for (r, a_, b_) in G.rel if r == "le" and is_hlen(a_)) or \
+        any(b_[0] == "c" and b_[1] <= MAXPDU + 1 for (r, a_, b_) in G.rel if r == "lt" and is_hlen(a_))
     ctx.check(dst_ok and len_ok and lo and hi, "C04.R1", "payload-receive-bounded", p.loc(),
               "destination buffer+8: %s, length header.len-8: %s, dominated by header.len >= 8: %s and header.len <= 3248: %s" % (dst_ok, len_ok, lo, hi),
               key="C04.R1:payload")
@@ -240,12 +242,11 @@ def r4(ctx, retsets):
             if u.callee == "rtr_receive_pdu":
                 continue
             n += 1
-            guards = [(vf.expr(f, g), t) for g, t, br in es.guards_of(f, u)]
-            safe = False
-            for g, t in guards:
-                if g[0] == "icmp" and g[2][0] == "call" and g[2][1] == "rtr_receive_pdu" and g[3][0] == "c":
-                    if (g[1] == "slt" and g[3][1] <= 0 and not t) or (g[1] == "sge" and g[3][1] >= 0 and t) or (g[1] == "sgt" and g[3][1] >= -1 and t):
-                        safe = True
+            G = es.Guards(f, u)
+            is_rc = lambda x: x[0] == "call" and x[1] == "rtr_receive_pdu"
+            safe = any(a_[0] == "c" and a_[1] >= 0 for (r, a_, b_) in G.rel if r == "le" and is_rc(b_)) or \
+                any(a_[0] == "c" and a_[1] >= -1 for (r, a_, b_) in G.rel if r == "lt" and is_rc(b_)) or \
+                any(b_[0] == "c" and b_[1] >= 0 for (a_, b_) in G.find_eq(is_rc, lambda y: True))
             ctx.check(safe, "C04.R4", "%s:buffer-use@%d" % (f.name, n), u.loc(),
                       "%s of the receive buffer is dominated by 'result >= 0'" % (u.callee or "read"), key="C04.R4:%s:use" % f.name)
     ctx.floor("C04.R4", n, 10)
@@ -371,8 +372,7 @@ def r7_r8(ctx):
     for c in gb:
         num = vf.expr(tl, c.args[-1])
         frm = vf.expr(tl, c.args[-2])
-        guards = [(vf.expr(tl, g), t) for g, t, br in es.guards_of(tl, c)]
-        cov = any(g[0] == "icmp" and t and g[1] in ("sle", "ule") and g[2] == num and g[3] == ("arg", 2) for g, t in guards)
+        cov = es.Guards(tl, c).le(num, ("arg", 2))
         ctx.check(frm == ("c", 0) and cov and num[0] == "load" and vf.last_field(num[1]) == "trie_node.len", "C04.R7",
                   "trie_lookup:get_bits@%d" % c.line, c.loc(), "first bit %s, count %s, dominated by count <= mask_len: %s" % (vf.show(frm), vf.show(num), cov),
                   key="C04.R7:trie_lookup:covering-guard")
